@@ -173,14 +173,17 @@ CHECKS["C06"] = {
           "derived by executing AncillaryFeature.hash symbolically; the instance's method is executed symbolically on a dataset whose "
           "configuration keys are present/absent/valued symbolically under the assumption that this instance is selected; relational "
           "(non-interference) obligations over all pairs of paths prove that two states agreeing on the ingredients of the hash give the "
-          "same outcome, and noraise obligations that a selected instance can be read. (2) RTDCBase._get_ancillary_feature_data returns the "
+          "same outcome -- ingredients being configuration keys and features (presence and values; the real requirement functions "
+          "has_ml_scores / bg_off_id / fl_max_available are part of the symbolic execution of hash) -- and noraise obligations that a "
+          "selected instance can be read. (2) RTDCBase.__contains__ reports a computed feature exactly when one of its recipes is available "
+          "in the current state, whatever the cache holds; RTDCBase._get_ancillary_feature_data returns the "
           "cached value only for an entry stored under the hash of the current state, otherwise the value computed now, never recomputes "
           "on a hit and keeps the invariant 'entry == value of its hash'. (3) AncillaryFeature.is_available equals the availability formula "
           "(requirements present, no higher-priority instance available, req_func) for the emodulus, crosstalk, time, volume and ml_class instances.",
   "note": "Assumed: A-HASH; functions of dclab.features.* are pure functions of their arguments (checked: never handed the dataset); innate "
-          "features do not change during the life of a dataset (feature reads outside req_features are reported, not obligations); numeric "
+          "features do not change during the life of a dataset (temporary features can be set and replaced: covered); ml_score values lie in [0, 1]; numeric "
           "content is abstracted (opaque values with structural signatures). Known finding D16 (availability does not look at values: "
-          "'emodulus' / 'flN_max_ctc' reported available although reading raises). Plugin and temporary features, the priority of cached "
+          "'emodulus' / 'flN_max_ctc' reported available although reading raises). Defects D15/D26/D32-D35 found by these obligations were fixed in dclab. Plugin features, the priority of cached "
           "ancillary data over basin data in RTDCBase.__getitem__, and obj2bytes' injectivity on arrays (dtype/shape, cf. C17) are not under contract.",
   "technique": "contract-based deductive verification: AST-generated VCs incl. relational non-interference obligations over path pairs and a "
                "derived reads/hash frame, discharged by z3"}
@@ -208,7 +211,9 @@ CHECKS["C18"] = {
           "every channel k, any non-negative spill-over matrix C with unit diagonal that is invertible (N-LINALG-INV plus a regrouping "
           "lemma); (volume) one truncated-cone term negates under reversed orientation, equals dz(R^2+Rr+r^2) and scales with s^3 (lemmas), "
           "and get_volume hands coordinates relative to the centroid to the orientation test and to both half volumes with the pixel size "
-          "as scale; (frame) get_inert_ratio_prnc never writes to the caller's contours.",
+          "as scale; (frame) get_inert_ratio_prnc never writes to the caller's contours; (lazy contours) LazyContourList.__getitem__ keeps "
+          "the representation invariant 'entry k of contours is the contour of mask indices[k]' over deques of any length (with and "
+          "without limit) and serves the contour of the requested mask.",
   "note": "Not decided by contracts (see DESIGN.md): contour tracing of masks and refilling (marching squares in compiled code), moment "
           "symmetries and rotation invariance of the inertia ratios (trigonometry, OpenCV-style accumulation), convergence of the volume "
           "for discretised spheres, the summation over segments in vol_revolve (only the segment term is proved). Assumed: P-* payload "
@@ -264,11 +269,12 @@ CHECKS["C13"] = {
           "length differs from the event count; has_fluorescence is true exactly when a fluorescence entry or any of fl1/fl2/fl3_max "
           "exists; check_fl_num_channels / check_fl_num_lasers report a violation exactly when the stated count differs from the number "
           "of named channels with stored data / lasers with wavelength and non-zero power; check_metadata_bad_greater_zero one violation "
-          "per set-up value that is present and not positive.",
+          "per set-up value that is present and not positive; check_metadata_bad one violation per image-like feature (image, image_bg, "
+          "mask) and axis whose frame size differs from the ROI size, naming the key.",
   "note": "'Accepts dclab's own output' and 'copies get the same violations' concern writer, CLI tools and all checks together on real "
           "files: decided by the bounded stand-in on every run (files with complete metadata with and without fluorescence written by "
           "RTDCWriter, compressed and repacked; eleven kinds of inconsistency put into finished files must each be reported), labelled "
-          "bounded. Table-driven checks (missing mandatory metadata, ROI vs. image size, unknown features, external links, choices, "
+          "bounded. Table-driven checks (missing mandatory metadata, unknown features, external links, choices, "
           "HDF5 types) carry no contract.",
   "technique": "contract-based deductive verification: AST-generated VCs over a symbolic dataset / metadata model discharged by z3; "
                "bounded native replay for whole-file behaviour"}
@@ -280,9 +286,11 @@ CHECKS["C08"] = {
           "attributes exactly when tables are included, hands exactly the requested features (all / scalar / none) to h5ds_copy and "
           "leaves the source untouched; that h5ds_copy transfers a numeric dataset with equal values, order and attributes "
           "on all three routes (HDF5 object copy when already compressed, re-creation and chunk-by-chunk fill with a loop invariant, "
-          "re-creation and whole-array fill) and returns the new dataset.",
+          "re-creation and whole-array fill) and returns the new dataset; that basin_definition_copy defines every kept basin exactly once in the "
+          "destination (six configurations of file / remote / internal basins; a partly selected internal basin is rewritten with exactly the "
+          "selected features, an unselected one dropped); that condense_dataset completes for HDF5 and .tdms inputs unless an operation fails.",
   "note": "h5ds_copy for object-string datasets (conversion to fixed width), groups (trace), empty datasets, defective-feature handling, "
-          "basin definition rewriting, the completion of min/max/mean attributes (C20) and .tdms reading are outside these contracts. "
+          "the JSON text of rewritten basin definitions, the completion of min/max/mean attributes (C20) and .tdms reading are outside these contracts. "
           "The bounded stand-in runs on every check: an input with unicode logs longer than 100 bytes, table attributes, user metadata "
           "with ':' and '=', dotted output names; compress / repack outputs compared with the input value by value (datasets, "
           "attributes, metadata), applied again to their own output, strip options, condense's scalar features, tdms2rtdc against the "
